@@ -167,10 +167,21 @@ def allowed(tokens, i, parent, match, removed):
     return False
 
 
-def classify_deviation(tokens, i, parent, match):
-    """Name the listed finding that fully accounts for the removal of token i, or None."""
+def classify_deviation(tokens, i, parent, match, removed=frozenset()):
+    """Name the listed finding(s) that fully account for the removal of token i, or None."""
     t = tokens[i]
     nk = nxt_kind(tokens, i)
+    if nk[0] == "el" and not nk[2] and is_html(t):
+        # the follower is a foreign element: the filter reads its name as if it were an HTML element's (same mechanism as
+        # 'namespace-ignored'); with the follower taken as HTML the removal must be allowed or be another listed finding
+        t2 = list(tokens)
+        t2[i + 1] = dict(tokens[i + 1], namespace=canon.HTML)
+        if allowed(t2, i, parent, match, removed):
+            return "namespace-ignored"
+        k2 = classify_deviation(t2, i, parent, match, removed)
+        if k2 and k2 != "namespace-ignored":
+            return "namespace-ignored+" + k2
+        return k2
     name = t["name"]
     if not is_html(t) and name in OMISSIBLE:
         return "namespace-ignored"
@@ -227,11 +238,12 @@ def judge_stream(ctx, case, tokens, label, contextual=True):
         if struct:
             parent, match = struct
             if not allowed(inp, i, parent, match, removed):
-                key = classify_deviation(inp, i, parent, match)
+                key = classify_deviation(inp, i, parent, match, removed)
                 if key:
                     devs.append(i)
-                    ctx.known_finding(key, case, "%s: %s %s removed where the syntax does not allow it (next: %r)" % (
-                        label, ty, t["name"], nxt_kind(inp, i)))
+                    for k1 in key.split("+"):
+                        ctx.known_finding(k1, case, "%s: %s %s removed where the syntax does not allow it (next: %r)" % (
+                            label, ty, t["name"], nxt_kind(inp, i)))
                 else:
                     ctx.violation("omitted-where-not-allowed:%s-%s" % ("start" if ty == "StartTag" else "end", t["name"]),
                                   case, "%s: token %d %s %s removed; next=%r parent=%r" % (
